@@ -20,7 +20,7 @@ CropSpec(sh, mn, mx, constrain) ==
       ELSE [err |-> "", lo |-> lob, hi |-> hib]
 \* bound values per axis: integers -2..L+2 and a few half-integers
 AxisVals(L) == IF Wide THEN {R(v) : v \in (-2)..(L + 2)} \cup {Q(-1,2), Q(1,2), Q(2*L - 1, 2), Q(2*L + 1, 2), Q(3,2)}
-               ELSE {R(v) : v \in (-1)..(L + 1)} \cup {Q(1,2), Q(2*L - 1, 2)}
+               ELSE {R(v) : v \in (-1)..(L + 1)} \cup {Q(-1,2), Q(1,2), Q(2*L - 1, 2), Q(2*L + 1, 2)}
 AxisPairs(L) == {<<a, b>> \in AxisVals(L) \X AxisVals(L) : RLt(a, b) \/ a = b}
 \* a thinner pool for the axes beyond the second
 ThinPairs(L) == {<<R(0), R(L)>>, <<R(1), R(L - 1)>>, <<R(-1), R(2)>>, <<R(1), R(L + 1)>>, <<Q(1,2), Q(3,2)>>, <<R(L), R(L + 2)>>}
